@@ -78,8 +78,11 @@ CLAIMS = {
          "nonce+1 == keyRotationInterval the counter restarts and (salt, key) become the next two HKDF blocks of (key, salt) - so sender and receiver "
          "rotate at the same operation count by construction; the invariant nonce < keyRotationInterval and 'the AEAD object is keyed with secretKey' "
          "holds after every operation; WriteMessage performs exactly two seals (2-byte length, body), and what it queues for the wire are exactly the "
-         "outputs of those two seals (never p itself); ReadHeader/ReadBody/ReadMessage open with the receive pair and advance it identically.",
-         "Freshness across rotations (HKDF outputs never repeat), ciphertext indistinguishability and 'equal plaintexts give different ciphertexts' are "
+         "outputs of those two seals (never p itself); ReadHeader/ReadBody/ReadMessage open with the receive pair and advance it identically; "
+         "lemmaSealOpenRoundTrip (bodies of Encrypt/Decrypt unfolded): two cipher states in the same state - what one encrypts the other decrypts to exactly the "
+         "same bytes without error, and their states are equal again afterwards, including when that operation rotates the key.",
+         "The round-trip lemma uses AEAD correctness (Open of a Seal output under the same key, nonce and associated data returns the plaintext), a true property of the "
+         "primitive, not an idealisation. Freshness across rotations (HKDF outputs never repeat), ciphertext indistinguishability and 'equal plaintexts give different ciphertexts' are "
          "properties of ChaCha20-Poly1305/HKDF, idealised as uninterpreted functions of fingerprints of their inputs; the unbounded-history statement follows "
          "from the per-operation clauses by induction on the record count (paper step in DESIGN.md), it is not a machine-checked lemma. The handshake-time "
          "auth payload clause is not covered."),
